@@ -444,6 +444,10 @@ class Engine:
             del st.guards[saved:]
         if isinstance(a, V) and isinstance(b, V) and a.ty == b.ty and a.ty is not TNone:
             return V(a.ty, z3.If(c, a.t, b.t))
+        if isinstance(a, V) and isinstance(b, V) and isinstance(a.ty, TOpt) and a.ty.t == b.ty:
+            return V(a.ty, z3.If(c, a.t, a.ty.sort().some(b.t)))
+        if isinstance(a, V) and isinstance(b, V) and isinstance(b.ty, TOpt) and b.ty.t == a.ty:
+            return V(b.ty, z3.If(c, b.ty.sort().some(a.t), b.t))
         if self.branch(st, c):
             return a
         return b
@@ -503,6 +507,10 @@ class Engine:
                 return a.t == b.t
             if a.ty != b.ty and (isinstance(a.ty, TEnum) or isinstance(b.ty, TEnum)):
                 return z3.BoolVal(False)  # e.g. str `is` Enum member: decided by sort
+        if isinstance(a, PyConst) and isinstance(b, PyConst):
+            return z3.BoolVal(a.name == b.name)
+        if (isinstance(a, PyConst) and isinstance(b, (V, MObj))) or (isinstance(b, PyConst) and isinstance(a, (V, MObj))):
+            return z3.BoolVal(False)   # a typed value of the model is never a module-level sentinel object (MISSING, UNSET, ...)
         raise OutOfSubset(n, "identity test other than None/enum/bool")
 
     def equal(self, a, b, n, st):
@@ -1262,6 +1270,19 @@ class Engine:
         sub.env.update(k.spec_env)
         sub.pc, sub.guards = st.pc, st.guards  # share lists: assumptions/obligations use the caller's path
         sub.decisions = st.decisions
+        if k.lets:
+            from .contracts import parse_clause as _pcl
+
+            saved_sm = self.spec_mode
+            self.spec_mode = True
+            sub.fresh_n = st.fresh_n
+            try:
+                for nm, text in k.lets.items():   # entry-state abbreviations of the callee's contract
+                    sub.env[nm] = self.ev(_pcl(text), sub)
+                    sub.env["old_" + nm] = sub.env[nm]
+            finally:
+                self.spec_mode = saved_sm
+            st.fresh_n = sub.fresh_n
         for i, r in enumerate(k.requires):
             goal = self.spec_bool(r, sub, k)
             exc = k.pre_raises.get(i)
